@@ -124,8 +124,8 @@ func (w *World) Paths(fn *ssa.Function) ([]*Path, error) {
 	}
 	t0 := time.Now()
 	p, err := ExplorePaths(w, fn)
-	if os.Getenv("GMARSLINT_TIMING") != "" && time.Since(t0) > 200*time.Millisecond {
-		fmt.Fprintf(os.Stderr, "timing: %s %d paths %v\n", fn.Name(), len(p), time.Since(t0))
+	if os.Getenv("GMARSLINT_TIMING") == "all" || os.Getenv("GMARSLINT_TIMING") != "" && time.Since(t0) > 200*time.Millisecond {
+		fmt.Fprintf(os.Stderr, "timing: budget=%d %s %d paths %v\n", w.inlBudget, fn.Name(), len(p), time.Since(t0))
 	}
 	w.pathMemo[fn] = p
 	w.pathErr[fn] = err
